@@ -7,3 +7,66 @@ Theorem C02_cmp_scratch_free : forall flits c p o l b e,
   snd (ctx_cmp flits (set_bufB b (set_cerr e c)) p o l) = snd (ctx_cmp flits c p o l).
 Proof. exact ctx_cmp_scratch_free. Qed.
 Print Assumptions C02_cmp_scratch_free.
+
+(* ---- refinement of the reference semantics: conditions (Proofs/RefineCond.v, RefineNodes.v) ---- *)
+From DT Require Import Model.Mods Spec.Ast Spec.RefEval Spec.Compile Proofs.FlatProofs Proofs.RefineBase
+  Proofs.RefineCond Proofs.RefineList Proofs.RefineNodes Proofs.RefineFindings.
+
+(* the key lemma: whatever the result buffer (Ctx.BufB) and the error register (Ctx.Err) hold, the
+   cond node built from a condition evaluates its first child iff the reference condition holds
+   on the abstraction of the context, and its second child otherwise *)
+Theorem C02_branch_by_operands :
+  forall flits lookup budget inc cnd ctx0 b,
+    slots_ok ctx0 -> ref_cond flits (abs ctx0) cnd = CB b ->
+    forall b0 e0 ch1 ch2 rest w,
+    exists c1, ceq c1 ctx0 /\
+      write_node flits lookup budget inc (NCond (c_cond cnd) (ch1 :: ch2 :: rest)) (set_bufB b0 (set_cerr e0 ctx0)) w =
+      write_node flits lookup budget inc (if b then ch1 else ch2) c1 w.
+Proof. exact branch_by_operands. Qed.
+Print Assumptions C02_branch_by_operands.
+
+(* if / if-else: the node refines the item, given that the branches do *)
+Theorem C02_if_refines :
+  forall flits lookup budget inc rlookup rinc L cnd th el (he : bool),
+    items_ok flits lookup budget inc rlookup rinc false L th ->
+    items_ok flits lookup budget inc rlookup rinc false L el ->
+    he && senseless cnd = false ->
+    node_ref flits lookup budget inc rlookup rinc L
+      (NCond (c_cond cnd) (NBlock BTrue no_case (merge_raws (c_list compile th)) ::
+                           (if he then [NBlock BFalse no_case (merge_raws (c_list compile el))] else [])))
+      (AIf cnd th el he).
+Proof. exact if_ref. Qed.
+Print Assumptions C02_if_refines.
+
+Theorem C02_ternary_refines :
+  forall flits lookup budget inc rlookup rinc L cnd p1 p2,
+    senseless cnd = false ->
+    node_ref flits lookup budget inc rlookup rinc L
+      (NCond (c_cond cnd) [NBlock BTrue no_case [NTpl p1 [] [] false []]; NBlock BFalse no_case [NTpl p2 [] [] false []]])
+      (ATernary cnd p1 p2).
+Proof. exact ternary_ref. Qed.
+Print Assumptions C02_ternary_refines.
+
+(* switch, both forms: first matching case, default, nothing *)
+Theorem C02_switch_refines :
+  forall flits lookup budget inc rlookup rinc L arg cases dflt (hd : bool),
+    Forall (switch_case_ok flits lookup budget inc rlookup rinc L arg) cases ->
+    items_ok flits lookup budget inc rlookup rinc false L dflt ->
+    node_ref flits lookup budget inc rlookup rinc L
+      (NSwitch arg (c_cases compile (match arg with [] => false | _ => true end) cases ++
+                    (if hd then [NBlock BDefault no_case (merge_raws (c_list compile dflt))] else [])))
+      (ASwitch arg cases dflt hd).
+Proof. exact switch_ref. Qed.
+Print Assumptions C02_switch_refines.
+
+(* the two excluded shapes are real disagreements between model and reference semantics *)
+From Coq Require Import String.
+Theorem C02_senseless_with_else_disagrees :
+  mout t_senseless ctx_new = Some (B "Y"%string, None) /\ rout t_senseless ctx_new = ([], SErr ESenseless).
+Proof. exact F4_senseless_with_else. Qed.
+Print Assumptions C02_senseless_with_else_disagrees.
+
+Theorem C02_len_in_free_switch_disagrees :
+  mout t_len_case c_str = Some ([], Some ECondHlpNotFound) /\ rout t_len_case c_str = (B "L"%string, SNone).
+Proof. exact F5_len_in_free_switch. Qed.
+Print Assumptions C02_len_in_free_switch_disagrees.
